@@ -7,7 +7,8 @@
  *   fail <n> <errno>                the n-th (0-based) pthread_create of the run fails with errno
  *   tick <ns>                       every clock read advances virtual time by ns (spin-waits on the clock end)
  *   run choices <c...> | run sched <t...> | run seed <s> [spurious-permille]
- * actions: L<k> launch slot k | J<k> aws_thread_join | D<k> aws_thread_clean_up | A<i> register at-exit
+ * actions: L<k> launch slot k | P<k> launch with cpu_id 0 | Q<k> launch with cpu_id 1000, its first pthread_create
+ *   fails with EINVAL (library retries unpinned) | R<k> same, the retry fails too | J<k> aws_thread_join | D<k> aws_thread_clean_up | A<i> register at-exit
  *   callback i | C print managed count | W aws_thread_join_all_managed | T<ns> set managed join timeout
  *   | Y yield (schedule point) | S<ns> aws_thread_current_sleep
  * output: P lines in execution order (see printf's below), then "P end ...", "W sched ...", "W ev ..." */
@@ -15,6 +16,7 @@
 #include "h_common.h"
 #include <aws/common/private/thread_shared.h>
 #include <aws/common/thread.h>
+#include <errno.h>
 #include <stdlib.h>
 #include <string.h>
 #include <unistd.h>
@@ -96,15 +98,25 @@ static void s_run_actions(struct slot *s) {
     for (int i = 0; i < s->nacts; ++i) {
         struct act *a = &s->acts[i];
         switch (a->op) {
-            case 'L': {
+            case 'L':
+            case 'P':
+            case 'Q':
+            case 'R': {
                 struct slot *k = &s_slots[a->a];
                 struct aws_thread_options o = *aws_default_thread_options();
                 if (k->managed) {
                     o.join_strategy = AWS_TJS_MANAGED;
                 }
+                if (a->op == 'P') {
+                    o.cpu_id = 0;
+                } else if (a->op != 'L') {
+                    o.cpu_id = 1000; /* a cpu that does not exist: pthread_create answers EINVAL */
+                    ds_fail_next_create(a->op == 'Q' ? 1 : 2, EINVAL);
+                }
                 aws_thread_init(&k->handle, hc_allocator());
                 k->handle_init = 1;
-                int rc = aws_thread_launch(&k->handle, s_thread_fn, k, (k->managed || (k->id & 1)) ? &o : NULL);
+                int rc = aws_thread_launch(
+                    &k->handle, s_thread_fn, k, (a->op != 'L' || k->managed || (k->id & 1)) ? &o : NULL);
                 printf("P launch s%d by=s%d rc=%s\n", k->id, s->id, hc_err(rc));
                 break;
             }
@@ -162,13 +174,13 @@ static void s_main_fn(void *arg) {
 static int s_parse_actions(struct slot *s, char **t, int from, int n) {
     s->nacts = 0;
     for (int i = from; i < n; ++i) {
-        if (s->nacts == MAXACT || !strchr("LJDACWTYS", t[i][0]) || t[i][0] == 0) {
+        if (s->nacts == MAXACT || !strchr("LPQRJDACWTYS", t[i][0]) || t[i][0] == 0) {
             return 0;
         }
         struct act *a = &s->acts[s->nacts++];
         a->op = t[i][0];
         a->a = t[i][1] ? atol(t[i] + 1) : 0;
-        if (strchr("LJD", a->op) && (a->a < 1 || a->a >= MAXSLOT)) {
+        if (strchr("LPQRJD", a->op) && (a->a < 1 || a->a >= MAXSLOT)) {
             return 0;
         }
     }
